@@ -184,10 +184,14 @@ pub fn host(o: Opt) -> BoxedStrategy<String> {
 }
 
 pub fn userinfo(o: Opt) -> BoxedStrategy<String> {
-	let p = pool(o, &["", "u", "u:p", ":", "a:b:c", "user", "u:", ":p", "a;b=c", "1"], &["\u{e9}", "\u{e9}:\u{8a9e}"], true);
+	// passwords that look like ports, names that look like hosts, and many ':' (a list of delimiters kept
+	// in a small inline buffer overflows)
+	let p = pool(o, &["", "u", "u:p", ":", "a:b:c", "user", "u:", ":p", "a;b=c", "1", "user:12345", "u:65535", ":8080", "12345", "u:0", "u:123456", "example.org:80", "a:b:c:d:e:f:g:h:i:j", "1:2:3:4:5:6:7:8:9:10:11:12:13:14:15:16:17", "::::::::::::::::::::"], &["\u{e9}", "\u{e9}:\u{8a9e}"], true);
 	prop_oneof![
 		8 => select(p),
 		2 => raw(o, &[":"], 8),
+		1 => ("[a-z]{0,4}", "[0-9]{1,7}").prop_map(|(u, d)| format!("{u}:{d}")),
+		1 => (1usize..40).prop_map(|n| vec!["x"; n].join(":")),
 	]
 	.boxed()
 }
@@ -944,4 +948,50 @@ pub fn huge_sizes(tier: crate::engine::Tier) -> Vec<usize> {
 		crate::engine::Tier::Quick => vec![(1 << 20) + 3, 2 << 20],
 		crate::engine::Tier::Thorough => vec![65_537, 1 << 19, (1 << 20) - 1, 1 << 20, (1 << 20) + 3, 2 << 20, 3 << 20, (8 << 20) + 1],
 	}
+}
+
+
+thread_local! {
+	static ARENA: std::cell::RefCell<std::collections::HashMap<usize, Vec<u8>>> = std::cell::RefCell::new(std::collections::HashMap::new());
+}
+
+/// Runs `f` on a copy of `text` that lives in a thread-local slot reserved for texts of exactly this
+/// length: every text of a given length is seen by the library at the SAME ADDRESS as the previous one
+/// of that length (a re-used line buffer). Anything the library remembers between calls keyed by
+/// address and length is then stale. Not re-entrant. Texts above 256 KiB are passed through.
+pub fn with_arena<R>(text: &str, f: impl FnOnce(&str) -> R) -> R {
+	if text.len() > (256 << 10) {
+		return f(text);
+	}
+	ARENA.with(|a| {
+		let mut map = a.borrow_mut();
+		let slot = map.entry(text.len()).or_insert_with(|| vec![0u8; text.len()]);
+		slot.copy_from_slice(text.as_bytes());
+		let s = std::str::from_utf8(slot).expect("copied from a str");
+		f(s)
+	})
+}
+
+/// Runs `f` on a copy of `text` that starts at an odd offset (1..=7, derived from the length) inside
+/// a larger buffer, followed by other bytes: not word-aligned, not NUL- or end-of-buffer-terminated.
+pub fn with_misaligned<R>(text: &str, f: impl FnOnce(&str, usize) -> R) -> R {
+	let k = 1 + text.len() % 7;
+	let mut padded = String::with_capacity(text.len() + 12);
+	padded.push_str(&"~~~~~~~~"[..k]);
+	padded.push_str(text);
+	padded.push_str("~/?");
+	f(&padded[k..k + text.len()], k)
+}
+
+/// Byte offsets `k < text.len()` (on char boundaries) at which `text[..k]` is accepted by `valid`:
+/// the prefix VIEWS of one buffer that are values of the same type (they share the start address).
+pub fn valid_prefix_cuts(text: &str, max: usize, valid: impl Fn(&str) -> bool) -> Vec<usize> {
+	let mut out: Vec<usize> = text.char_indices().map(|(i, _)| i).filter(|&i| valid(&text[..i])).collect();
+	if out.len() > max {
+		// keep the shortest, the longest and an even spread
+		let n = out.len();
+		out = (0..max).map(|j| out[j * (n - 1) / (max - 1)]).collect();
+		out.dedup();
+	}
+	out
 }
